@@ -325,6 +325,12 @@ def like_prune(pyhf, pre, out, exp_spec, step, fails):
     if sorted(mo.config.channels) != sorted(kept):
         fails.append(("channels of the pruned model are not the kept channels", {"model": mo.config.channels, "kept": sorted(kept)}, ["like:channels"]))
         return
+    for n in mo.config.par_order:
+        if n in mp.config.par_order and mo.config.param_set(n).n_parameters != mp.config.param_set(n).n_parameters:
+            # a bin-wise parameter declared in a removed AND a kept channel (same staterror/shapesys name in several channels): pyhf
+            # gives it one component per bin of every channel carrying it, so pruning renumbers its components and a point
+            # "by name and index" no longer denotes the same parameter values; the property does not speak about this numbering
+            raise Skip("bin-wise parameter spans pruned and kept channels (components renumbered)")
     for p in range(3):
         po = pars_of(pyhf, mo, to, p)
         pp = pars_of(pyhf, mp, tp, p, neutral=neutral)
